@@ -305,6 +305,17 @@ def _analyse_variants(facts, fn_def, max_split=5, **kw):
             if len(polys) >= 2 and hit:
                 if not any(c2 is ev["node"] for _, c2 in scored):
                     scored.append((len(hit), ev["node"]))
+    # NaN guards are always split: the two branches must not be merged for NaN reasoning
+    for n in tast.find(hk.main_loop, lambda z: z.get("k") == "If" and tast.contains(
+            z["cond"], lambda q: q.get("k") == "MethodCall" and q.get("name") in ("is_nan", "is_finite", "is_infinite"))):
+        if not any(c2 is n for _, c2 in scored):
+            scored.append((100, n))
+        # conditionals that enclose a NaN guard (up to the accept test) decide whether the guard runs at all
+        for anc, parents in tast.find_with_parents(hk.main_loop, lambda z: z is n):
+            for a in parents:
+                if a.get("k") == "If" and a is not hk.accept_if and a is not n and not any(c2 is a for _, c2 in scored):
+                    if tast.contains(a["then"], lambda z: z is n) or (a.get("else") is not None and tast.contains(a["else"], lambda z: z is n)):
+                        scored.append((90, a))
     scored.sort(key=lambda t: -t[0])
     cands = [n for _, n in scored[:max_split]]
     if not cands:
